@@ -34,6 +34,9 @@ pub struct Op {
     pub kind: Kind,
     /// virtual time to let pass (server stepping meanwhile) after the datagram
     pub wait_ms: u32,
+    /// the server application does not call step() during that wait (it stalls, then resumes)
+    #[serde(default)]
+    pub stall: bool,
 }
 
 #[derive(Clone, Debug, Serialize, Deserialize)]
@@ -94,7 +97,7 @@ impl Check for C18 {
     }
 
     fn strategy(&self, tier: Tier) -> BoxedStrategy<Case> {
-        let op = (0u8..5, kind_strategy(), prop_oneof![4 => Just(0u32), 3 => 1u32..300, 2 => 300u32..2500, 1 => 2500u32..25_000]).prop_map(|(addr, kind, wait_ms)| Op { addr, kind, wait_ms });
+        let op = (0u8..5, kind_strategy(), prop_oneof![4 => Just(0u32), 3 => 1u32..300, 2 => 300u32..2500, 1 => 2500u32..25_000, 1 => 25_000u32..60_000], prop_oneof![6 => Just(false), 1 => Just(true)]).prop_map(|(addr, kind, wait_ms, stall)| Op { addr, kind, wait_ms, stall });
         (
             any::<u64>(),
             prop_oneof![1u8..4, Just(200u8)],
@@ -115,7 +118,7 @@ impl Check for C18 {
     }
 
     fn rule(&self) -> String {
-        "case = a real Server (limits 1..3 or 200, generated packet-size / allocation settings so that some requests are refused) with generated active-timeout (1 s .. 1 h, or 2^32-1 ms), keepalive and rate settings, and up to five spoofable source addresses sending, in a generated interleaving with waits of 0..25 s and a final wait of up to 12 minutes (so that all SYN-ACK resends and the pending-entry expiry are observed, however the server is configured): well-formed padded SYNs (also wrong version, extreme limits), repeats of the previous SYN, SYN-typed frames of every length below 1472 with a valid checksum, handshake ACKs with arbitrary nonces, frames of every other type, bursts of up to 400 minimum-size frames (10..15 bytes) one per step - among them data frames numbered upwards from the nonce of the address's own SYN, as a real client's first frames would be -, raw bytes. No address ever completes the handshake. Oracle after every server step: no address is ever reported as connected; per address: bytes sent to it are 0 or strictly less than the bytes received from it; a datagram that is not a full-size SYN produces no reply at all, and copies of a SYN-ACK are never less than 2 s apart. Non-trivial = the server sent at least one byte to an unverified address. Distinct = distinct serialised case.".into()
+        "case = a real Server (limits 1..3 or 200, generated packet-size / allocation settings so that some requests are refused) with generated active-timeout (1 s .. 1 h, or 2^32-1 ms), keepalive and rate settings, and up to five spoofable source addresses sending, in a generated interleaving with waits of 0..60 s (during some of which the server application stalls, i.e. does not step at all) and a final wait of up to 12 minutes (so that all SYN-ACK resends and the pending-entry expiry are observed, however the server is configured): well-formed padded SYNs (also wrong version, extreme limits), repeats of the previous SYN, SYN-typed frames of every length below 1472 with a valid checksum, handshake ACKs with arbitrary nonces, frames of every other type, bursts of up to 400 minimum-size frames (10..15 bytes) one per step - among them data frames numbered upwards from the nonce of the address's own SYN, as a real client's first frames would be -, raw bytes. No address ever completes the handshake. Oracle after every server step: no address is ever reported as connected; per address: bytes sent to it are 0 or strictly less than the bytes received from it; a datagram that is not a full-size SYN produces no reply at all, and copies of a SYN-ACK are never less than 2 s apart. Non-trivial = the server sent at least one byte to an unverified address. Distinct = distinct serialised case.".into()
     }
 
     fn assumptions(&self) -> Vec<String> {
@@ -312,9 +315,21 @@ impl Check for C18 {
                 replied = true;
             }
             let mut waited = 0u64;
+            if op.stall && op.wait_ms > 0 {
+                // the application is busy elsewhere: time passes, nothing is stepped
+                w.advance(op.wait_ms as u64 * 1000);
+                waited = op.wait_ms as u64 * 1000;
+                classes.push("server_stalled");
+                w.step_server();
+                if let Some(v) = account(&w, &mut seen_wire, &mut tx, &rx) {
+                    return CaseResult { violation: Some(v), nontrivial: true, classes };
+                }
+            }
+            // (long waits are stepped coarsely)
+            let wait_step = if op.wait_ms > 25_000 { step_us.max(250_000) } else { step_us };
             while waited < op.wait_ms as u64 * 1000 {
-                w.advance(step_us);
-                waited += step_us;
+                w.advance(wait_step);
+                waited += wait_step;
                 w.step_server();
                 if let Some(v) = account(&w, &mut seen_wire, &mut tx, &rx) {
                     return CaseResult { violation: Some(v), nontrivial: true, classes };
